@@ -22,6 +22,7 @@ const TAG_OPENPGP: u32 = 278;
 const TAG_RSA: u32 = 268;
 const TAG_DSA: u32 = 267;
 const TAG_PGP: u32 = 1002;
+const TAG_GPG: u32 = 1005;
 
 struct Call {
     data: Vec<u8>,
@@ -124,12 +125,15 @@ fn shapes_sweep(name: &'static str, lengths: bool) -> Sweep {
     let rsa = legacy_variants(b"\x10rsa-R");
     let dsa = legacy_variants(b"\x20dsa-D");
     let pgp = legacy_variants(b"\x30pgp-P");
+    // the header+payload companion of the DSA tag: absent / binary with 6 bytes
+    let gpg: Vec<(&'static str, Option<Val>)> = vec![("absent", None), ("binary, 6 bytes", Some(Val::Bin(b"\x40gpg-G".to_vec())))];
     // the main sweep has digests ∈ {absent, correct, wrong}; the 'lengths' sweep adds truncated / empty digests on a reduced legacy-tag axis
     let (nd, nl, no, na) = if lengths { (5u64, 2u64, 1u64, 1u64) } else { (3, 5, 2, 3) };
-    let rad = [og.len() as u64, nl, nl, nl, nd, nd, nd, nd, 2, no, na];
+    let ng = if lengths { 1u64 } else { 2 };
+    let rad = [og.len() as u64, nl, nl, nl, nd, nd, nd, nd, 2, no, na, ng];
     let n = product(&rad);
     let rule = format!(
-        "{} signature-header shapes: OpenPGP tag ∈ {{absent; string array with 0–3 items (good base64, malformed base64, empty string); binary / string / i18n type}} × RSA, DSA, PGP tags ∈ {{absent; binary with 0, 1, 6 bytes; string type}} × SHA-256, SHA-1, MD5, payload digest ∈ {{absent, correct, wrong, truncated to half, empty}} × payload ∈ {{empty, 5 bytes}} × signature index sorted / reversed × the verifier's algorithm() answer ∈ {{RSA, EdDSA, ECDSA}}; for each shape ALL accept/reject answer sequences of a scripted verifier are explored (engine C, unbounded deviations). Oracle: Ok ⇒ ≥ 1 call ∧ every answer accept ∧ each call's data = canonical main header (header‖payload for the PGP tag) ∧ its signature bytes = the stored item ∧ all recorded digests match. non-trivial = execution that consulted the verifier",
+        "{} signature-header shapes: OpenPGP tag ∈ {{absent; string array with 0–3 items (good base64, malformed base64, empty string); binary / string / i18n type}} × RSA, DSA, PGP tags ∈ {{absent; binary with 0, 1, 6 bytes; string type}} × GPG tag ∈ {{absent, binary}} × SHA-256, SHA-1, MD5, payload digest ∈ {{absent, correct, wrong, truncated to half, empty}} × payload ∈ {{empty, 5 bytes}} × signature index sorted / reversed × the verifier's algorithm() answer ∈ {{RSA, EdDSA, ECDSA}}; for each shape ALL accept/reject answer sequences of a scripted verifier are explored (engine C, unbounded deviations). Oracle: Ok ⇒ ≥ 1 call ∧ every answer accept ∧ each call's data = canonical main header (header‖payload for the PGP tag) ∧ its signature bytes = the stored item ∧ all recorded digests match. non-trivial = execution that consulted the verifier",
         n
     );
     Sweep::new(name, rule, n, move |i, acc| {
@@ -144,6 +148,9 @@ fn shapes_sweep(name: &'static str, lengths: bool) -> Sweep {
             if let Some(v) = &vars[k as usize].1 {
                 set(&mut parts.sig, tag, Some(v.clone()));
             }
+        }
+        if let Some(v) = &gpg[d[11] as usize].1 {
+            set(&mut parts.sig, TAG_GPG, Some(v.clone()));
         }
         if lengths && [d[4], d[5], d[6], d[7]].iter().all(|v| *v < 3) {
             return; // covered by the main sweep
@@ -188,7 +195,10 @@ fn shapes_sweep(name: &'static str, lengths: bool) -> Sweep {
                 allowed.push((data, b.clone()));
             }
         }
-        let describe = || json!({"openpgp": oname, "rsa": rsa[d[1] as usize].0, "dsa": dsa[d[2] as usize].0, "pgp": pgp[d[3] as usize].0,
+        if let Some(Val::Bin(b)) = &gpg[d[11] as usize].1 {
+            allowed.push((&hdr_payload, b.clone()));
+        }
+        let describe = || json!({"openpgp": oname, "rsa": rsa[d[1] as usize].0, "dsa": dsa[d[2] as usize].0, "pgp": pgp[d[3] as usize].0, "gpg": gpg[d[11] as usize].0,
                                  "digests(sha256,sha1,md5,payload)": [d[4], d[5], d[6], d[7]], "payload_len": payload.len(), "signature_index_reversed": d[9] == 1, "verifier_algorithm": format!("{:?}", valgo), "bytes_hex": vlib::hex(&x)});
         let a: &mut Acc = acc;
         let st = explore_seq(
